@@ -173,6 +173,94 @@ def explore(task):
     return res
 
 
+AUDIT_RAIL = """
+define bot refuse in1
+  "REFUSED-in1"
+
+define flow in1
+  $allowed = execute verif_rail(rail="in1", text=$user_message)
+  if not $allowed
+    execute verif_lookup(q="audit")
+    bot refuse in1
+    stop
+"""
+
+
+def explore_audit(task):
+    """A rail that calls an audit/log action before refusing: verdict scripts over 3-4 turns x a fault at
+    every action invocation of every turn.  Every fault-free turn after a fault must obey the rail."""
+    _tag, exceptions, turns, kinds = task
+    from vf.engines.world import World
+    res = {"worlds": 1, "conversations": 0, "faults_injected": 0, "faulted_turns_fail_closed": 0,
+           "next_turns_checked": 0, "next_turn_spurious_refusals": 0, "action_sites": 0, "viol": []}
+    info0 = {"engine": "E3-world", "prop": "C03", "version": "1.0", "world": "audit-rail", "exceptions": exceptions}
+    world = World(AUDIT_RAIL + rw.v1_rail("out1", "output"), "rails:\n  input:\n    flows: [in1]\n  output:\n    flows: [out1]\n")
+    fn = llm_fn_for("general", "1.0")
+    nonce = [0]
+    for script in itertools.product("AR", repeat=turns):
+        for fault_turn in range(1, turns):
+            n_sites = 2
+            for idx in range(n_sites):
+                for kind in kinds:
+                    nonce[0] += 1
+                    msgs = []
+                    res["conversations"] += 1
+                    faulted = False
+                    trail = []
+                    for t in range(1, turns + 1):
+                        user_text = f"U{t}x{nonce[0]}q hello"
+                        verd = {"in1": script[t - 1], "out1": "A"}
+                        faults = (len(world.action_log) + idx,) if t == fault_turn else ()
+                        m2 = msgs + [{"role": "user", "content": user_text}]
+                        turn = rw.run_turn(world, m2, verd, fn, faults=faults, fault_kind=kind)
+                        trail.append({"t": t, "verdict": script[t - 1], "fault_index": idx if t == fault_turn else None, "reply": turn.text})
+                        info = dict(info0, script="".join(script), fault_turn=fault_turn, fault_index=idx, fault_kind=kind, trail=trail)
+                        sig_tail = f"v1:audit-rail:script={''.join(script)}"
+
+                        if turn.exc is not None:
+                            res["viol"].append((f"generate-raised:{sig_tail}", repr(turn.exc), info))
+                            break
+                        llm_texts = [str(c.get("answer", "")).strip() for c in turn.llm_calls if "LLMTEXT-" in str(c.get("answer", ""))]
+                        text = turn.text or ""
+                        if t == fault_turn:
+                            res["faults_injected"] += 1
+                            failed = [a for a in turn.actions if a.get("fault")]
+                            faulted = bool(failed)
+                            if failed and any(x in text for x in llm_texts):
+                                res["viol"].append((f"unchecked-llm-text-returned:{sig_tail}", f"action {failed[0].get('rail') or failed[0]['action']} failed; reply {text!r}", info))
+                            elif failed:
+                                res["faulted_turns_fail_closed"] += 1
+                        elif t > fault_turn and faulted:
+                            res["next_turns_checked"] += 1
+                            calls = [(a.get("rail"), a["text"]) for a in turn.actions if a.get("rail")]
+                            if not calls or calls[0] != ("in1", user_text):
+                                res["viol"].append((f"next-turn-input-rail-not-run:{sig_tail}", f"turn {t}: rail calls {calls}, reply {text!r}", info))
+                                break
+                            if script[t - 1] == "R":
+                                if turn.llm_calls or any(x in text for x in llm_texts) or text != "REFUSED-in1":
+                                    res["viol"].append((f"rail-verdict-ignored-after-fault:{sig_tail}:fault-turn{fault_turn}:site{idx}",
+                                                        f"turn {t}: the input rail rejected {user_text!r} but the reply is {text!r} "
+                                                        f"(LLM calls: {len(turn.llm_calls)}) - trail {trail}", info))
+                                    break
+                            elif text.startswith("REFUSED") or text == INTERNAL_ERROR:
+                                res["next_turn_spurious_refusals"] += 1
+                        reply = turn.reply if isinstance(turn.reply, dict) else None
+                        msgs = m2 + ([reply] if reply and reply.get("role") != "exception" else [])
+    seen, uniq = set(), []
+    for v in res["viol"]:
+        if v[0] not in seen:
+            seen.add(v[0])
+            uniq.append(v)
+    res["viol"] = uniq
+    return res
+
+
+def dispatch(task):
+    if task[0] == "audit":
+        return explore_audit(task)
+    return explore(task)
+
+
 def tasks(tier):
     out = []
     turns = 3
@@ -183,6 +271,7 @@ def tasks(tier):
         out.append(("1.0", True, exc, "llm", turns, pairs, kinds))
         out.append(("1.0", True, exc, "lookup", turns, pairs, kinds))
         out.append(("2.x", False, exc, "free", turns, pairs, kinds))
+    out.append(("audit", False, 3 if tier == "quick" else 4, kinds))
     return out
 
 
@@ -192,7 +281,7 @@ def run(rep, tier):
 
     ts = tasks(tier)
     agg = {}
-    for r in par.pmap(explore, ts):
+    for r in par.pmap(dispatch, ts):
         for k, v in r.items():
             if isinstance(v, int):
                 agg[k] = agg.get(k, 0) + v
